@@ -216,7 +216,9 @@ def run(ctx):
             continue
         if r["rzero"] and cls not in ("ConvexSpheropolygon", "ConvexSpheropolyhedron"):
             continue
-        names = list(me.bases(cls)) if ctx.tier == "thorough" else list(me.bases(cls))[:2]
+        names = list(me.bases(cls))
+        if ctx.tier != "thorough":
+            names = names[:2] + [n for n in names[2:] if n.endswith("_nano") or n.endswith("_vmean0")]
         if cls == "Polygon":
             names = ["dart_cw", "dart_negnormal"] if not r["convex"] else ["rect", "pent", "rect_negnormal"]
         for b in names:
